@@ -336,6 +336,11 @@ func (conn *Conn) initialise() {
 	conn.out = make(chan string, 32)
 	conn.die = nil
 	conn.gen++
+	// What a previous server advertised, acknowledged or was in the middle
+	// of authenticating says nothing about the one we are connecting to now.
+	conn.supportedCaps.Clear()
+	conn.currCaps.Clear()
+	conn.saslRemainingData = nil
 	if conn.st != nil {
 		conn.st.Wipe()
 	}
